@@ -173,6 +173,46 @@ def run_refill(chk, n):
         rc.classify(chk, "refill", p, real, rep, sp, REGIONS)
 
 
+def run_looped_slot(chk, n):
+    """Directed: a {% slot %} inside a {% for %} of a component's template whose content — its own default content, or a
+    fill — holds a {% component %} tag that reads the loop variable in its body or template: every iteration's nested
+    instance is rendered later and must still see *its* iteration's value (seeded/C01-5: the loop layer under the slot's
+    extra layer shared between the deferred instances)."""
+    lit, var = tplgen.lit, tplgen.var
+    L = lambda x: {"t": "text", "s": x}
+    progs = []
+    for i in range(n):
+        r = core.rng(PROP, "looped-slot", i)
+        lv = r.choice(["x", "v", "a"])
+        c1 = {"name": "c1", "data": [], "template": [L("("), {"t": "slot", "name": lit("s2"), "default": True, "required": False, "data": [], "body": [L("d")]},
+                                                     {"t": "out", "e": var(lv)}, L(")")]}
+        inner_body = r.choice([[L("D"), {"t": "out", "e": var(lv)}], [], [{"t": "fill", "name": lit("s2"), "data": None, "dflt": None, "body": [L("G"), {"t": "out", "e": var(lv)}]}]])
+        nested = {"t": "comp", "name": "c1", "kwargs": [], "only": False, "dyn": r.random() < 0.1, "body": inner_body}
+        slot = {"t": "slot", "name": lit("s1"), "default": r.random() < 0.3, "required": False,
+                "data": [["k1", var(lv)]] if r.random() < 0.4 else [], "body": [L("["), nested, L("]")]}
+        loop = {"t": "for", "x": lv, "e": var("xs"), "body": [slot, L("|")]}
+        if r.random() < 0.3:
+            loop = {"t": "for", "x": "w", "e": var("ys"), "body": [loop]}
+        c0 = {"name": "c0", "data": [["xs", {"kwarg": "xs"}], ["ys", {"kwarg": "ys"}]], "template": [L("="), loop, L("=")]}
+        if r.random() < 0.5:
+            body = []
+        else:
+            body = [{"t": "fill", "name": lit("s1"), "data": "sd" if r.random() < 0.4 else None, "dflt": None,
+                     "body": [L("F"), {"t": "comp", "name": "c1", "kwargs": [], "only": False, "dyn": False,
+                                       "body": [L("E"), {"t": "out", "e": var(lv)}, {"t": "out", "e": var("sd", "k1")}]}]}]
+        page = [{"t": "comp", "name": "c0", "kwargs": [["xs", var("xs")], ["ys", var("ys")]], "only": False, "dyn": False, "body": body}]
+        ctx = [["xs", {"l": [tplgen.sval(w) for w in r.sample(tplgen.WORDS, r.randint(2, 3))]}], ["ys", {"l": [tplgen.sval("p"), tplgen.sval("q")]}]]
+        progs.append({"isolated": r.random() < 0.5, "lib": [c0, c1], "entry": {"page": page}, "ctx": ctx, "raise": None})
+    reps = rc.batch(progs)
+    for p, (rep, sp) in zip(progs, reps):
+        real = tplgen.run_real(p, limit=20.0)
+        chk.count("looped-slot", 1, validated=1)
+        chk.errkind(real["err"] or "ok")
+        chk.nontrivial(("looped-slot", real["out"] or real["err"]))
+        chk.branch(["looped-slot:mode:" + ("isolated" if p["isolated"] else "django")])
+        rc.classify(chk, "looped-slot", p, real, rep, sp, REGIONS)
+
+
 def run(tier: str) -> int:
     chk = core.Check(PROP, tier, THEOREMS, "DESIGN.md §8 render pipeline / C01")
     chk.build_and_audit()
@@ -182,6 +222,7 @@ def run(tier: str) -> int:
     run_programs(chk, n)
     run_variants(chk, n // 4)
     run_refill(chk, 40 if tier == "quick" else 600)
+    run_looped_slot(chk, 40 if tier == "quick" else 600)
     chk.assumptions += [
         "text alphabet excludes template and HTML metacharacters; values are str / list[str] / dict[str,str]",
         "component call graph acyclic except through fills; nesting depth <= 3 (quick)",
